@@ -8,6 +8,10 @@ use crate::subject::*;
 use serde_json::json;
 use std::collections::BTreeSet;
 
+/// helper variables available in every session of this check: the signed zeros of f32 and c64 have no literal spelling
+pub const PRELUDE: [&str; 8] = ["zf<f32> := 0.0", "nzf := -zf", "of<f32> := 1.0", "zc := 0+0i", "nzc := -zc", "oc := 1+1i", "mzc := 0-0i", "tf<f32> := 2.5"];
+pub fn sess() -> Session { let mut s = Session::new(); for d in PRELUDE { s.run(d); } s }
+
 pub struct Universe { pub name: &'static str, pub elems: Vec<&'static str>, /// equivalence class of each element (value equality)
   pub class: Vec<usize>, pub matrix_kind: Option<&'static str> }
 
@@ -22,6 +26,9 @@ pub fn universes(tier: Tier) -> Vec<Universe> {
     Universe { name: "tuple", elems: vec!["(1,2)", "(2,1)", "(1,2)"], class: vec![0, 1, 0], matrix_kind: None },
     Universe { name: "set", elems: vec!["{1,2}", "{2,1}", "{3}"], class: vec![0, 0, 1], matrix_kind: None },
     Universe { name: "signed-zero", elems: vec!["0.0", "-0.0", "1.0"], class: vec![0, 0, 1], matrix_kind: None },
+    Universe { name: "signed-zero-f32", elems: vec!["zf", "nzf", "of"], class: vec![0, 0, 1], matrix_kind: None },
+    Universe { name: "signed-zero-c64", elems: vec!["zc", "nzc", "oc"], class: vec![0, 0, 1], matrix_kind: None },
+    Universe { name: "f32", elems: vec!["of", "tf", "zf"], class: vec![0, 1, 2], matrix_kind: None },
   ];
   if tier == Tier::Thorough {
     v[0] = Universe { name: "f64", elems: vec!["1", "2", "3", "4"], class: vec![0, 1, 2, 3], matrix_kind: Some("f64") };
@@ -51,6 +58,7 @@ pub fn classes(u: &Universe, seq: &[usize]) -> BTreeSet<usize> { seq.iter().map(
 pub fn math_key(c: &Canon) -> String {
   match c {
     Canon::Num(k, t) if (k == "f64" || k == "f32") && t == "-0.0" => format!("{}:0.0", k),
+    Canon::Num(k, t) if k == "c64" => format!("c64:{}", t.replace("-0.0", "0.0")),
     Canon::Num(k, t) => format!("{}:{}", k, t),
     Canon::Set(_, e, _) => { let mut v: Vec<String> = e.iter().map(math_key).collect(); v.sort(); v.dedup(); format!("{{{}}}", v.join(",")) }
     Canon::Tuple(e) => format!("({})", e.iter().map(math_key).collect::<Vec<_>>().join(",")),
@@ -67,7 +75,7 @@ impl C14 {
   /// math key of one universe element as the implementation evaluates it
   fn elem_key(&mut self, spelled: &str) -> Option<String> {
     if let Some(k) = self.keys.get(spelled) { return k.clone(); }
-    let mut s = Session::new();
+    let mut s = sess();
     let o = s.run(&format!("t := {}", spelled));
     let k = if o.is_value() { s.get("t").map(|c| math_key(&c)) } else { None };
     self.keys.insert(spelled.to_string(), k.clone());
@@ -110,7 +118,7 @@ impl UnitRunner for C14 {
     let a_cls = classes(u, a_seq);
     // ---- constructors of A: literal, matrix conversion, comprehension
     {
-      let mut s = Session::new();
+      let mut s = sess();
       out.evaluations += 1;
       let o = s.run(&format!("a := {}", a_lit));
       let case = format!("a := {}", a_lit);
@@ -198,7 +206,7 @@ impl UnitRunner for C14 {
         for (spi, spelling) in ["variables", "mutable-variables", "variable-then-literals", "literals-then-variable", "elements-composed-of-variables"].iter().enumerate() {
           if a_seq.len() == 1 && (spi == 2 || spi == 3) { continue; }
           if spi == 4 && composed.is_none() { continue; }
-          let mut s = Session::new();
+          let mut s = sess();
           let mut ok = s.run(&format!("a := {}", a_lit)).is_value();
           let prelude: String = if spi == 4 { composed.as_ref().unwrap().0.to_string() } else { (0..nel).map(|i| format!("{}v{} := {}", if spi == 1 { "~" } else { "" }, i, u.elems[i])).collect::<Vec<_>>().join("; ") };
           for d in prelude.split("; ") { ok = ok && s.run(d).is_value(); }
@@ -250,7 +258,7 @@ impl UnitRunner for C14 {
           out.evaluations += 1;
           let m = format!("[{}]", a_seq.iter().map(|i| u.elems[*i]).collect::<Vec<_>>().join(" "));
           let stmt = format!("s<{{{}}}> := {}", mk, m);
-          let mut s2 = Session::new();
+          let mut s2 = sess();
           let o2 = s2.run(&stmt);
           if let Outcome::Value(c) = &o2 { out.nontrivial += 1; if let (Some(got), Some(want)) = (check_set(c, &format!("matrix-conversion:{}", uname), &stmt, out), want_keys(&a_cls)) { if got != want { out.fail(format!("C14|wrong-result|matrix-conversion:{}", uname), stmt.clone(), format!("distinct elements {:?}, got {}", want, c.short())); } } }
         }
@@ -260,7 +268,7 @@ impl UnitRunner for C14 {
     for b_seq in seqs.iter() {
       let b_lit = literal(u, b_seq);
       let b_cls = classes(u, b_seq);
-      let mut s = Session::new();
+      let mut s = sess();
       if !s.run(&format!("a := {}", a_lit)).is_value() || !s.run(&format!("b := {}", b_lit)).is_value() { continue; }
       for (n, op) in OPS.iter().enumerate() {
         out.evaluations += 1;
@@ -292,6 +300,22 @@ impl UnitRunner for C14 {
             }
           }
           _ => { out.count("operator_rejected"); out.set("rejected_operators", &format!("{} ({})", locus, o.short())); }
+        }
+      }
+      // every other spelling of the operators (symbol synonyms and word forms) must give what the primary spelling gives
+      for (n, op) in OPS.iter().enumerate() {
+        let alts: Vec<String> = match *op { "∪" => vec!["set/union(a, b)".into()], "∩" => vec!["set/intersection(a, b)".into()], "∖" => vec!["set/difference(a, b)".into()], "Δ" => vec!["set/symmetric-difference(a, b)".into()],
+          "⊆" => vec!["set/subset(a, b)".into()], "⊇" => vec!["set/superset(a, b)".into()], "⊊" => vec!["a ⊂ b".into()], _ => vec!["a ⊃ b".into(), "set/proper-superset(a, b)".into()] };
+        let Some(base) = s.get(&format!("r{}", n)) else { continue; };
+        for (ai, alt) in alts.iter().enumerate() {
+          out.evaluations += 1;
+          let o = s.run(&format!("y{}x{} := {}", n, ai, alt));
+          let case = format!("a := {}; b := {}; r := {}   versus r := a {} b", a_lit, b_lit, alt, op);
+          match (&o, s.get(&format!("y{}x{}", n, ai))) {
+            (Outcome::Panic(m), _) => out.fail(format!("C14|panic|{}:{}", alt.split('(').next().unwrap_or(alt), uname), case, m.clone()),
+            (Outcome::Value(_), Some(g)) => { out.nontrivial += 1; let same = match (&base, &g) { (Canon::Set(..), Canon::Set(..)) => math_key(&base) == math_key(&g), _ => base == g }; if !same { out.fail(format!("C14|spelling-differs|{}:{}", if alt.contains('(') { alt.split('(').next().unwrap_or(alt).to_string() } else { alt.replace("a ", "").replace(" b", "") }, uname), case, format!("{} gives {}, this spelling {}", op, base.short(), g.short())); } else { out.count("operator_spellings_agree"); } }
+            _ => { out.count("operator_spelling_rejected"); out.set("rejected_operator_spellings", &format!("{} ({})", alt, uname)); }
+          }
         }
       }
       // operand forms: literal/variable on either side take different dispatch arms
@@ -328,7 +352,7 @@ impl UnitRunner for C14 {
       for (vi, other) in self.us.iter().enumerate() {
         if vi == ui || other.name == "signed-zero" || uname == "signed-zero" { continue; }
         let b_lit = literal(other, &[0, 1]);
-        let mut s = Session::new();
+        let mut s = sess();
         if !s.run(&format!("a := {}", a_lit)).is_value() || !s.run(&format!("b := {}", b_lit)).is_value() { continue; }
         for (n, op) in ["∪", "∩", "∖", "Δ"].iter().enumerate() {
           out.evaluations += 1;
@@ -369,7 +393,7 @@ fn context_unit(unit: u64, out: &mut WorkerOut) {
   let kinds: [(&str, [&str; 4]); 4] = [("f64", ["1", "2", "3", "9"]), ("u8", ["1u8", "2u8", "3u8", "9u8"]), ("string", ["\"a\"", "\"b\"", "\"c\"", "\"z\""]), ("r64", ["1/2", "2/4", "1/3", "9/1"])];
   let (kind, e) = kinds[(unit % 4) as usize];
   let sets = unit / 4 == 1;
-  let mut s = Session::new();
+  let mut s = sess();
   // shadows
   for d in [format!("a := {}", e[3]), format!("b := {}", e[3]), format!("p := {{{}}}", e[3]), format!("q := {{{}}}", e[3])] { s.run(&d); }
   let defs = [format!("ga := {}", e[0]), format!("gb := {}", e[1]), format!("gp := {{{},{}}}", e[0], e[1]), format!("gq := {{{},{}}}", e[1], e[2])];
